@@ -1,6 +1,7 @@
 package main
 
 import (
+	"go/token"
 	"fmt"
 	"go/ast"
 	"go/types"
@@ -13,7 +14,7 @@ import (
 func init() {
 	register(&propDef{
 		ID:          "C08",
-		Explanation: "Equality of the generated programs for all spellings is not decided. Decides three agreement clauses between parser, formatter and generator: R1 decode/encode symmetry — every parser-node field that the parser fills with a decoded value (html.UnescapeString) is re-encoded (html.EscapeString) wherever a formatter method (Write/String of the node) emits it; R2 classifier agreement — over the finite domain {node kinds} × {block element?} × {indented children?}, evaluated from the two type switches: wherever the formatter's block classifier (a forced line break before the node) is true, the generator's inline-or-text classifier (whitespace before the node is rendered) must be false, otherwise formatting inserts a space into the rendered output; R3 field coverage — every field of a parser node type that the generator reads in order to emit code is also read by that node's own formatter methods (a field the formatter drops is lost from the formatted file); R4 content fields (string fields of parser nodes outside Go expressions that the generator reads, directly or through node methods) are written back verbatim by the formatter: never assigned a non-constant value and never passed through a string-transforming strings.* call; R5 every child list taken from a parser node is stripped of whitespace-only nodes before the generator renders it (the formatter adds and removes such nodes freely). R6 the import rewriter that templ fmt runs never inserts an import without its name (no astutil.AddImport; name and path of every Add/DeleteNamedImport come from one import spec, and the splitter reads the spec's alias); R7 a boolean field the parser derives from a sibling string field (quote choice from the attribute value) is derived from that field's final value — no later assignment to the string without recomputing the flag; R9 a flag that records that a construct spans several lines is decided after the whitespace in front of the closing delimiter was consumed; R8 a formatter loop that writes the lines of a Go expression with an indentation prefix also has a path that writes a line unprefixed (continuation lines of raw string literals are part of the string's value). R10 the formatter command parses the text it read and its file readers return what they read (no CRLF/BOM/whitespace normalisation in front of the parser: a CRLF inside a raw Go string or <pre> is part of what is rendered). NOT decided: the formatter's whitespace decisions on concrete files, gofmt-level layout of embedded Go.",
+		Explanation: "Equality of the generated programs for all spellings is not decided. Decides three agreement clauses between parser, formatter and generator: R1 decode/encode symmetry — every parser-node field that the parser fills with a decoded value (html.UnescapeString) is re-encoded (html.EscapeString) wherever a formatter method (Write/String of the node) emits it; R2 classifier agreement — over the finite domain {node kinds} × {block element?} × {indented children?}, evaluated from the two type switches: wherever the formatter's block classifier (a forced line break before the node) is true, the generator's inline-or-text classifier (whitespace before the node is rendered) must be false, otherwise formatting inserts a space into the rendered output; R3 field coverage — every field of a parser node type that the generator reads in order to emit code is also read by that node's own formatter methods (a field the formatter drops is lost from the formatted file); R4 content fields (string fields of parser nodes outside Go expressions that the generator reads, directly or through node methods) are written back verbatim by the formatter: never assigned a non-constant value, never passed through a string-transforming strings.* call in a function that writes (predicates that fold case before a lookup are not writers), and no write is guarded by a test of such a field's text (strings.* / len), which would add bytes next to the content for some contents only; R5 every child list taken from a parser node is stripped of whitespace-only nodes before the generator renders it (the formatter adds and removes such nodes freely). R6 the import rewriter that templ fmt runs never inserts an import without its name (no astutil.AddImport; name and path of every Add/DeleteNamedImport come from one import spec, and the splitter reads the spec's alias); R7 a boolean field the parser derives from a sibling string field (quote choice from the attribute value) is derived from that field's final value — no later assignment to the string without recomputing the flag; R9 a flag that records that a construct spans several lines is decided after the whitespace in front of the closing delimiter was consumed; R8 a formatter loop that writes the lines of a Go expression with an indentation prefix also has a path that writes a line unprefixed (continuation lines of raw string literals are part of the string's value). R10 the formatter command parses the text it read and its file readers return what they read (no CRLF/BOM/whitespace normalisation in front of the parser: a CRLF inside a raw Go string or <pre> is part of what is rendered). NOT decided: the formatter's whitespace decisions on concrete files, gofmt-level layout of embedded Go.",
 		Assumptions: []string{"atoms of the classifiers (IsBlockElement, IndentChildren) are independent booleans"},
 		Trusted:     []string{"go/types", "x/tools go/packages"},
 		Run:         runC08,
@@ -644,6 +645,75 @@ func contentVerbatim(c *Ctx, pp, gp *packages.Package) {
 			return true
 		})
 	}
+	// content-dependent insertions: a write that happens only when a test of a verbatim field's TEXT succeeds or fails
+	// (HasSuffix(s.Value, "\n"), len(s.Value) > 0 …) puts bytes next to the content that depend on the content, so the
+	// re-parsed field differs from the original one for exactly the inputs on one side of the test
+	nguard := 0
+	for _, fd := range fns {
+		if isPredicate(fd) {
+			continue
+		}
+		ord := 0
+		ast.Inspect(fd.Body, func(n ast.Node) bool {
+			is, ok := n.(*ast.IfStmt)
+			if !ok {
+				return true
+			}
+			field := ""
+			ast.Inspect(is.Cond, func(m ast.Node) bool {
+				call, ok := m.(*ast.CallExpr)
+				if !ok {
+					return true
+				}
+				fn := calleeOf(pinfo, call)
+				isLen := false
+				if id, ok := call.Fun.(*ast.Ident); ok && id.Name == "len" {
+					isLen = true
+				}
+				if !isLen && (fn == nil || fn.Pkg() == nil || fn.Pkg().Path() != "strings") {
+					return true
+				}
+				for _, a := range call.Args {
+					if se, ok := ast.Unparen(a).(*ast.SelectorExpr); ok {
+						if k := fieldKey(se); k != "" && gread[k] {
+							field = k
+						}
+					}
+				}
+				return true
+			})
+			if field == "" {
+				return true
+			}
+			nguard++
+			// does a guarded branch write?
+			writes := false
+			var wpos token.Pos
+			for _, blk := range []ast.Node{is.Body, is.Else} {
+				if blk == nil {
+					continue
+				}
+				ast.Inspect(blk, func(m ast.Node) bool {
+					if call, ok := m.(*ast.CallExpr); ok {
+						if fn := calleeOf(pinfo, call); fn != nil {
+							nm := fullName(fn)
+							if nm == "io.WriteString" || nm == "fmt.Fprintf" || nm == "fmt.Fprint" || fn.Name() == "Write" || fn.Name() == "WriteString" || byObj[fn] != nil && strings.HasPrefix(fn.Name(), "write") {
+								writes = true
+								wpos = call.Pos()
+							}
+						}
+					}
+					return true
+				})
+			}
+			ord++
+			key := fmt.Sprintf("%s|content-test#%d:%s|guards-no-write", funcKey(pp, fd), ord, field)
+			c.check(!writes, "C08.R4", key, c.pos(is.Pos()), "the test of the field's text guards no write",
+				fmt.Sprintf("%s writes (%s) only when `%s` holds or fails: bytes are added next to the verbatim content %s depending on that content, so after formatting the parser returns a different %s for exactly those inputs (a script body is hashed into the function name, text is rendered)", fd.Name.Name, c.pos(wpos), types.ExprString(is.Cond), field, field))
+			return true
+		})
+	}
+	c.count("content_tests_in_formatter", nguard)
 	c.count("content_field_uses_in_formatter", nuse)
 	c.floor("C08.R4", 8)
 }
